@@ -50,3 +50,20 @@ func VerifNewAzureBlobLeaseManager(container azureContainer, blob azureBlob) Lea
 	mgr.blob = blob
 	return mgr
 }
+
+// WakeAll broadcasts the buffer's condition variable so that a harness can end a scenario in which
+// callers are still blocked in enqueue (they re-check the loop condition as usual).
+func (v *VerifBuffer) WakeAll() {
+	if b, ok := v.b.(*buffer); ok {
+		b.lock.Lock()
+		b.notFull.Broadcast()
+		b.lock.Unlock()
+	}
+}
+
+// VerifWakeBlockedEnqueuers does the same for the buffer inside a Batcher.
+func VerifWakeBlockedEnqueuers(r Batcher) {
+	if br, ok := r.(*batcher); ok {
+		(&VerifBuffer{b: br.buffer}).WakeAll()
+	}
+}
